@@ -295,7 +295,10 @@ func (g *Gen) Next(d *Dump, nowMs int64) Op {
 		switch x := r.Intn(100); {
 		case x < 62:
 			peer := g.peer()
-			o := g.origin()
+			// at most 4 origins x 3 next hops = 12 entries per agent: sort.Slice
+			// is a (stable) insertion sort up to 12 elements, which is what the
+			// model's isort is
+			o := 1 + r.Intn(4)
 			a := o
 			if r.Chance(1, 4) {
 				a = 1 + r.Intn(5)
